@@ -55,7 +55,6 @@ fn main() {
         "C34j" => c34::run(seed, n, replay, &mut out),
         "C34tx" => c34tx::run(seed, n, replay, &mut out),
         "C28" | "inspwrap" => c28::run(seed, n, replay, &mut out),
-        "C25" => c25::run(seed, n, replay, &mut out),
         other => {
             eprintln!("unknown component {other}");
             std::process::exit(2);
